@@ -49,7 +49,14 @@ func c02Frame(c *fw.Case) (*model.Root, error) {
 			break
 		}
 	}
-	return model.MakeRootFrom(rng, f, 5, true)
+	root, err := model.MakeRootFrom(rng, f, 5, true)
+	if err == nil && rng.Intn(8) == 0 {
+		// "however derived": also frames produced by Aggregate (their columns are built by other code than New's)
+		if ar := aggregateDerive(rng, root); ar != nil {
+			return ar, nil
+		}
+	}
+	return root, err
 }
 
 func runC02(c *fw.Case) {
@@ -98,7 +105,15 @@ func runC02(c *fw.Case) {
 				c.Count("rewritten_clauses", 1)
 			}
 			shape := v.Shape(sh)
-			if !c.GuardFail("filter", "Filter("+v.String()+")", func() { res = root.QF.Filter(v.Real(kinds)) }) {
+			real := v.Real(kinds)
+			twice := rng.Intn(3) == 0
+			if !c.GuardFail("filter", "Filter("+v.String()+")", func() {
+				if twice {
+					// one clause value serves two calls (also on another frame of the family); the second result is examined
+					_ = root.QF.Slice(0, root.QF.Len()/2).Filter(real)
+				}
+				res = root.QF.Filter(real)
+			}) {
 				continue
 			}
 			if res.Err != nil {
